@@ -4,6 +4,7 @@ Oracles: ASan/UBSan inside iodined (any report kills the process), per-turn watc
 process still serving at the end, and a health probe through a session established before the attack.
 """
 import random
+import struct
 
 from vflib import core, simrun
 from checks import _sess
@@ -76,7 +77,9 @@ def _may_name(d, dl, avoid):
     try:
         m = proto.parse_msg(d)
     except proto.ParseError:
-        return False
+        # not a message a strict parser accepts; iodined's reader is more lenient (e.g. label length bytes up to 0xBF): when the
+        # tunnel domain occurs in it at all, it may name anybody
+        return proto.encode_name(dl).lower() in bytes(d).lower()
     if m.qr or not m.qd:
         return False
     labels = m.qd[0][0]
@@ -135,6 +138,79 @@ def up_stream_burst(S, k, rng, st, sizes=(16, 48, 64)):
 
 
 STATES = ["after_login", "lazy_held", "mid_upstream", "mid_downstream", "queue_full", "realsoon", "raw", "codec128", "codec64", "big_frag", "server_full"]
+
+
+def scn_heap(params):
+    """Surviving arbitrary datagrams for as long as they keep coming includes not running out of memory: thousands of hostile
+    datagrams (every class that reaches an answer or forwarding path) while the process's allocated heap - the sanitizer
+    runtime's own counter, reported by the shim at every select() - is watched.  iodined allocates per datagram only what it
+    frees again; growth between the first quarter and the end is a leak."""
+    seed = params["seed"]
+    rng = random.Random(params["rseed"])
+    out = {"violations": [], "nontrivial": [], "stats": {"heap_runs": 1}, "evaluations": 0, "sets": {}}
+    sim = scen.Sim("c05h-%d" % params["idx"], seed)
+    try:
+        k = sim.k
+        extra = (["-b", "5353"] if params["opt_b"] else []) + (["-c"] if params["opt_c"] else [])
+        srv = sim.server(extra=extra)
+        if not srv.alive():
+            out["inconclusive"] = "server-died-at-start"
+            return out
+        dl = proto.labels_from_dotted(scen.DOMAIN.encode())
+        S = mclient.ModelClient("10.53.2.2", (scen.SERVER_IP, 53), scen.DOMAIN, sim.password, random.Random(rng.getrandbits(32)))
+        att = kernel.Actor("10.66.0.1")
+        k.add_actor(S.ip, S)
+        k.add_actor(att.ip, att)
+        if params["opt_b"]:
+            k.add_actor("127.0.0.1", kernel.Actor("127.0.0.1"))
+        if not S.connect():
+            out["inconclusive"] = "model-login-failed"
+            return out
+        n = params["ndgrams"]
+        marks = {}
+        for i in range(n):
+            if not srv.alive() or k.stalled:
+                break
+            r = rng.random()
+            if r < 0.35:
+                # names the lenient reader accepts and the writers refuse: a label of 64..127 characters (length byte 0x40..0x7F),
+                # in queries that get an answer (or are forwarded) all the same
+                nlab = rng.randint(0x40, 0x7F)
+                lab = rng.choice([b"z", b"v", b"p", b"l", b"0", b"r", b"y", b"i", b"ns", b"www", b"q"]) + hostile.rand_label(rng, nlab, "b32")
+                lab = lab[:nlab]
+                suffix = proto.encode_name(dl) if rng.random() < 0.7 else proto.encode_name([b"example", b"org"])
+                d = hostile.hdr(rng) + bytes([nlab]) + lab + suffix + struct.pack(">HH", rng.choice([10, 16, 5, 1, 2, 15, 33, 65399, 255]), 1)
+            elif r < 0.6:
+                d = hostile.dns_malformed(rng, dl)
+            elif r < 0.85:
+                d = hostile.tunnel_shaped(rng, dl, userids=(S.userid, 5), avoid=())
+            else:
+                d = hostile.arbitrary(rng)
+            k.transmit((att.ip, rng.choice([53, 1024, 40000])), (scen.SERVER_IP, 53), d)
+            out["evaluations"] += 1
+            k.run(k.now + rng.choice([0, 1, 100, 1000]))
+            if i in (n // 4, n - 1):
+                k.run(k.now + 50000)
+                marks[i] = srv.snapshot[0]["heap_kb"] if srv.snapshot else None
+        h = sim.health(srv)
+        if h != "running":
+            out["inconclusive"] = "server-" + h.split(":")[0]      # (the other scenarios judge deaths)
+            return out
+        a, b_ = marks.get(n // 4), marks.get(n - 1)
+        if a is None or b_ is None or a == 0:
+            out["inconclusive"] = "no-heap-figure"
+            return out
+        grow = b_ - a
+        out["stats"]["heap_growth_kb_max"] = max(0, grow)
+        out["stats"]["heap_kb_seen"] = b_
+        if grow > 32:
+            out["violations"].append(("C05:heap-grows-with-hostile-input", "the server's allocated heap grew from %d KB to %d KB over the last %d hostile datagrams (about %d bytes each) and keeps growing"
+                                      % (a, b_, n - n // 4, grow * 1024 // max(1, n - n // 4)), {"seed": seed, "params": params}))
+        else:
+            out["nontrivial"].append("heap-watch b=%s c=%s" % (params["opt_b"], params["opt_c"]))
+        return out
+    finally:
+        sim.close()
 
 
 def one_run(params):
@@ -244,6 +320,21 @@ def one_run(params):
             out["evaluations"] += 1
             k.run(k.now + rng.choice([0, 1, 100, 1000, 20000, 50000]))
             if i % 40 == 39:
+                row = srv.snapshot[H.userid] if srv.snapshot and H.userid < len(srv.snapshot) else None
+                if H.lazy and row and row["q_id"] != 0 and row["out_len"] == 0 and row["outpacketq_filled"] == 0 and row["conn"] == 1 and srv.alive():
+                    # the server holds a query of the established (lazy) session: a packet that arrives for that session now goes
+                    # out at once in answer to it - to that session, whatever the hostile traffic in between was about
+                    H.drain()
+                    n_before = len(H.delivered)
+                    fpr = proto.make_frame(sim.tun_net.split("/")[0], H.tun_ip, 998000 + i, rng.choice([40, 80]), "random", rng)
+                    k.offer_tun("srv", fpr, 998000 + i)
+                    k.run(k.now + 60000)
+                    H.drain()
+                    out["stats"]["held_query_deliveries_checked"] = out["stats"].get("held_query_deliveries_checked", 0) + 1
+                    if not any(fr == fpr for _t, fr in H.delivered[n_before:]) and srv.alive() and not out["violations"]:
+                        out["violations"].append(("C05:packet-for-established-session-not-sent-in-answer-to-its-held-query",
+                                                  "the server was holding a query of the established lazy-mode session (id %d) when a packet for it arrived; 60 ms later the session has not received it"
+                                                  % row["q_id"], {"seed": seed, "params": params, "last_datagrams": [(c, d.hex()[:300]) for c, d in recent]}))
                 H.ping(20000)
                 if rng.random() < 0.2:
                     k.run(k.now + rng.choice([1, 5, 30]) * US)
@@ -356,6 +447,11 @@ def run(ctx):
     res.min_nontrivial = 0 if ctx.replay else ctx.pick(40, 120)
     with core.Build() as b:
         simrun.run_scenarios(res, b, scn, plist, jobs=ctx.jobs)
+        if not ctx.replay:
+            hrng = random.Random(ctx.seed * 31337 + 5)
+            hlist = [{"idx": 800000 + i, "seed": ctx.seed * 100000 + 80000 + i, "rseed": hrng.getrandbits(32), "opt_b": i % 2 == 0, "opt_c": i % 4 >= 2,
+                      "ndgrams": ctx.pick(8000, 40000)} for i in range(ctx.pick(4, 32))]
+            simrun.run_scenarios(res, b, scn_heap, hlist, jobs=ctx.jobs, chunksize=1)
         if not ctx.replay:
             # ordinary traffic too (the workloads of the behavioural checks): a death there is the same violation
             simrun.run_scenarios(res, b, _sess.scn_survive, _sess.survive_params(ctx, "C05", "server", ctx.pick(32, 2000), 600000), jobs=ctx.jobs)
